@@ -29,6 +29,14 @@ CHECKS = {
              "level-ordered loop orders x inputs, plus the shipped accelerator mappings with drawn sizes; executed on the reference model "
              "and compared with dense evaluation and the unmapped compile.",
         design="4/C03"),
+    "C04": dict(
+        technique="property-based testing (Hypothesis): generated affine Einsums (stride/dilation/negative coefficients/2-D/three-variable/subsampling) x loop orders incl. the tensor's own rank x follow() partitioning x consistent extents; executed on a reference model on drawn and all-dense inputs; dense-evaluation oracle + out-of-extent/fractional-coordinate invariant",
+        text="Generated-input search over affine-index Einsums with small integer coefficients (positive and negative), loop orders that "
+             "loop over the accessed tensor's own rank, and 1-2 levels of shape partitioning with follow(); every case is executed on the "
+             "reference model on a drawn sparse input and on an all-dense input and compared with dense evaluation (missing or duplicated "
+             "contributions change a value because all values are positive); every created output coordinate must be integral and inside "
+             "the extent. Five root causes found on the unchanged tree are listed as known findings with narrow excluded classes; two were fixed.",
+        design="4/C04"),
 }
 
 NOT_APPLICABLE = {}
